@@ -157,6 +157,34 @@ def register(reg):
     k.raises("RelationalAlgebraError", None)
     k.raises("NotImplementedError", None)
 
+    # ---- Processor.process: the public entry point (session 4).  Same preconditions; of the postconditions those that speak about
+    # the returned relation and the payload heap (the persisted flag is internal to the recursion)
+    class _AsRecursive:
+        """A view of process()'s context in the vocabulary of _process_recursive's clauses (original = relation, result = (relation, flag))."""
+
+        def __init__(self, c):
+            object.__setattr__(self, "_c", c)
+
+        def __getattr__(self, name):
+            c = object.__getattribute__(self, "_c")
+            if name == "original":
+                return c.relation
+            if name == "result":
+                r = c.result
+                return r if hasattr(r, "items") else type("R", (), {"items": [r, None]})()
+            return getattr(c, name)
+
+    kp = reg.contract("_processor:Processor.process", properties=P, modifies=("BaseRelation.payload",), result_td=TRel)
+    for cl in k.requires:
+        kp.req(cl.label, (lambda fn: lambda c: fn(_AsRecursive(c)))(cl.fn))
+    for cl in k.ensures:
+        if cl.label in ("same-columns-engine-and-rows", "result-can-be-evaluated-by-its-engine-alone", "payloads-still-hold-their-relations-rows",
+                        "keeps-every-existing-payload", "payloads-are-never-replaced", "transfers-of-the-input-tree-never-gain-payloads",
+                        "only-materializations-and-same-engine-markers-gain-payloads", "a-processed-materialization-has-its-payload"):
+            kp.ens(cl.label, (lambda fn: lambda c: fn(_AsRecursive(c)))(cl.fn))
+    for e_ in ("EngineError", "ColumnError", "RelationalAlgebraError", "NotImplementedError"):
+        kp.raises(e_, None)
+
     def not_a_plain_marker(c, _):
         """F13's witness class is 'the processed node is a plain marker (not a transfer or materialization)'."""
         t = smt.typ(c.original.z)
